@@ -7,6 +7,7 @@
 #include "app.h"
 #include "trace.h"
 #include <ROOT-Sim.h>
+#include <core/core.h>
 
 static FILE *dlog;
 static void dispatch_log(lp_id_t me, uint64_t ticks, unsigned type, const void *pl, unsigned size)
@@ -52,7 +53,11 @@ int main(int argc, char **argv)
 	verif_trace_dump();
 	if(dlog)
 		fclose(dlog);
+	extern nid_t n_nodes;
 	for(uint64_t i = 0; i < app_prog.lps; ++i) {
+		/* with several ranks every process prints only the LPs it finalised */
+		if(n_nodes > 1 && !app_fini_calls[i] && !app_init_calls[i])
+			continue;
 		printf("F %" PRIu64 " ", i);
 		vh_print_u(stdout, app_final_acc[i]);
 		printf(" %" PRIu64 "\n", app_final_cnt[i]);
